@@ -108,7 +108,7 @@ def random_table_histories(rng, n, length):
     return hs
 
 
-def run_tables(chk, histories, relevant, flavor="asan", label="tbl"):
+def run_tables(chk, histories, relevant, flavor="asan", label="tbl", handoff=False):
     work = vlib.scratch(label)
     hist = work / "histories.ndjson"
     with open(hist, "w") as f:
@@ -120,6 +120,8 @@ def run_tables(chk, histories, relevant, flavor="asan", label="tbl"):
     cmds = [[exe, "run", hist, i, nsh, files[i]] for i in range(nsh)]
     env = {"VERIF_TMP": str(work), "ASAN_OPTIONS": "abort_on_error=1:detect_leaks=0:allocator_may_return_null=1",
            "UBSAN_OPTIONS": "halt_on_error=1:abort_on_error=1"}
+    if handoff:
+        env["VERIF_HANDOFF"] = "1"      # every other add runs on a thread of its own, joined before the history goes on
     for cmd, rc, out in vlib.run_parallel(cmds, timeout=1800, env=env):
         if rc != 0:
             raise vlib.Infra(f"tbl_driver failed rc={rc}: {out}")
